@@ -4,6 +4,10 @@ import (
 	"fmt"
 	"go/ast"
 	"go/token"
+	"os"
+	"os/exec"
+	"path/filepath"
+	"runtime"
 	"strconv"
 	"strings"
 
@@ -177,7 +181,38 @@ func returnsNilOrSkip(g *fact.Gen, b *ast.BlockStmt) bool {
 	return s == "returnnil"
 }
 
+func goroot() string {
+	if out, err := exec.Command("go", "env", "GOROOT").Output(); err == nil && strings.TrimSpace(string(out)) != "" {
+		return strings.TrimSpace(string(out))
+	}
+	return runtime.GOROOT()
+}
+
+func pinnedDir() string {
+	root := os.Getenv("VERIF_ROOT")
+	if root == "" {
+		root = "/verif"
+	}
+	return filepath.Join(root, "harness", "pinned")
+}
+
 func genFsx(g *fact.Gen) {
+	// filepath.Clean itself (Unix): internal/filepathlite/path.go of the toolchain the harness is built with, together
+	// with the constants and one-line functions the build constraints select on Unix (path_unix.go: Separator,
+	// IsPathSeparator, IsAbs, volumeNameLen; path_nonwindows.go: the empty postClean), translated statement by
+	// statement (harness/internal/go2lean); GIV.Lemmas.FilepathGo* prove the translation equal to the model's
+	// cleanBytes / cleanPath for every string
+	fpl := filepath.Join(goroot(), "src", "internal", "filepathlite")
+	g.TranslateModuleFiles("FilepathGo", filepath.Join(fpl, "path.go"),
+		[]string{filepath.Join(fpl, "path_unix.go"), filepath.Join(fpl, "path_nonwindows.go")},
+		[]string{"volumeNameLen", "IsPathSeparator", "IsAbs", "replaceStringByte", "FromSlash", "lazybuf.index", "lazybuf.append", "lazybuf.string", "Clean", "VolumeName", "Dir"}, "filepath",
+		[]string{"GIV.GoLib", "GIV.GoLibNil"}, "GIV.Go.Filepath", filepath.Join(pinnedDir(), "FilepathGo.lean"))
+	// filepath.Join on Unix: func join of path/filepath/path_unix.go (Join(elem...) = join(elem))
+	g.TranslateModule("FilepathJoinGo", filepath.Join(goroot(), "src", "path", "filepath", "path_unix.go"), []string{"join"}, "filepathjoin",
+		[]string{"GIV.GoLib", "GIV.Gen.FilepathGo", "GIV.Model.Fsx"}, "GIV.Go.FilepathJoin", filepath.Join(pinnedDir(), "FilepathJoinGo.lean"))
+	// isAbs of /repo's txtar/archive.go (filepath.IsAbs is the translated definition above)
+	g.TranslateModule("TxtarAbsGo", "txtar/archive.go", []string{"isAbs"}, "txtarabs",
+		[]string{"GIV.GoLib", "GIV.Gen.FilepathGo"}, "GIV.Go.TxtarWrite", filepath.Join(pinnedDir(), "TxtarAbsGo.lean"))
 	const arch = "txtar/archive.go"
 
 	// ---- isAbs
